@@ -397,8 +397,18 @@ pub fn exec(c: &Case) -> Outcome {
             if x["ok"].as_bool() != Some(true) {
                 let call: Call = serde_json::from_value(x["call"].clone()).unwrap_or(Call::RecvBadFd);
                 let who = if c.actors.get(x["actor"].as_u64().unwrap_or(0) as usize).is_some_and(|a| a.in_task) { "task" } else { "thread" };
+                // the other face of the listed finding "a timed-out read-type call leaves its
+                // submission in flight": when the second recv does not reuse the first one's
+                // token (the task moved to another loop), it does not abort -- the stale
+                // submission of the first call receives the data and the second call times out too
+                let stale_took_the_data = matches!(call, Call::RecvTimeoutThenData { .. })
+                    && x["ret"].as_i64() == Some(-1)
+                    && x["errno"].as_i64() == Some(i64::from(libc::ETIMEDOUT))
+                    && x["first"][0].as_i64() == Some(-1)
+                    && x["first"][1].as_i64() == Some(i64::from(libc::ETIMEDOUT));
+                let suffix = if stale_took_the_data { "data-went-to-the-call-that-had-timed-out" } else { "wrong-result" };
                 o.set_fail(
-                    format!("C27/{}/wrong-result", kind(&call)),
+                    format!("C27/{}/{suffix}", kind(&call)),
                     format!("{who} actor {} call #{} {call:?}: returned {} (errno {}), expected {}: {}; details {}", x["actor"], x["k"], x["ret"], x["errno"], x["want"], x["what"], x),
                 );
                 return o;
